@@ -29,6 +29,10 @@ var minimalDocs = []struct{ Name, Data string }{
 	{"lone-key", "key\n"},
 	{"yaml-null-value", "a:\n"},
 	{"tilde", "~\n"},
+	{"lone-double-quote", "\""},
+	{"lone-single-quote", "'"},
+	{"key-equals", "a=\n"},
+	{"key-equals-quote", "a=\"\n"},
 }
 
 type bounds struct {
@@ -37,14 +41,15 @@ type bounds struct {
 	sigmaAll  int // seeds up to this size: sigma-replace at every offset
 	sigmaLine int // seeds up to this size (and above sigmaAll): sigma-replace at line starts
 	byteOps   int // seeds up to this size: delete byte i, duplicate byte i
+	nullify   int // text seeds up to this size: replace each value token / bracket group by null
 	binFF     bool
 }
 
 func boundsFor(tier string) bounds {
 	if tier == "thorough" {
-		return bounds{truncAll: 64 << 10, lineOps: 64 << 10, sigmaAll: 32 << 10, sigmaLine: 64 << 10, byteOps: 16 << 10, binFF: true}
+		return bounds{truncAll: 64 << 10, lineOps: 64 << 10, sigmaAll: 32 << 10, sigmaLine: 64 << 10, byteOps: 16 << 10, nullify: 64 << 10, binFF: true}
 	}
-	return bounds{truncAll: 2 << 10, lineOps: 64 << 10, sigmaAll: 0, sigmaLine: 2 << 10, binFF: false}
+	return bounds{truncAll: 2 << 10, lineOps: 64 << 10, sigmaAll: 256, sigmaLine: 2 << 10, byteOps: 256, nullify: 2 << 10, binFF: false}
 }
 
 func isBinary(seed []byte) bool {
@@ -93,6 +98,8 @@ func (d mutDesc) String() string {
 		return fmt.Sprintf("replace[%d]=%q", d.A, string(rune(sigma[d.B])))
 	case "setbyte":
 		return fmt.Sprintf("set[%d]=%#02x", d.A, d.B)
+	case "nullify":
+		return fmt.Sprintf("null<-[%d:%d]", d.A, d.B)
 	case "delbyte":
 		return fmt.Sprintf("delete-byte[%d]", d.A)
 	case "dupbyte":
@@ -215,6 +222,16 @@ func enumerate(seed []byte, tier string, from int, fn func(seq int, d mutDesc, d
 			}
 		}
 	}
+	if n <= b.nullify && !isBinary(seed) {
+		for _, sp := range valueSpans(seed) {
+			if !emit(mutDesc{Op: "nullify", A: sp[0], B: sp[1]}, func() []byte {
+				buf = append(append(append(buf[:0], seed[:sp[0]]...), "null"...), seed[sp[1]:]...)
+				return buf
+			}) {
+				return seq
+			}
+		}
+	}
 	if b.binFF && isBinary(seed) {
 		lim := n
 		if lim > 1024 {
@@ -236,6 +253,85 @@ func enumerate(seed []byte, tier string, from int, fn func(seq int, d mutDesc, d
 		}
 	}
 	return seq
+}
+
+// valueSpans finds the value positions of a JSON/YAML/TOML-like text: quoted strings that are not keys,
+// bare scalars that follow ':' ',' '[' or '=', and balanced {...} / [...] groups. Each span [from,to) is
+// replaced by `null` by the nullify operator (the structure-aware edit "this value is null").
+func valueSpans(seed []byte) [][2]int {
+	var out [][2]int
+	n := len(seed)
+	prevSig := byte(0) // last non-space byte before position i
+	var stack []int
+	isBare := func(c byte) bool {
+		return c >= '0' && c <= '9' || c >= 'a' && c <= 'z' || c >= 'A' && c <= 'Z' || c == '.' || c == '-' || c == '+' || c == '_'
+	}
+	nextSig := func(i int) byte {
+		for ; i < n; i++ {
+			if seed[i] != ' ' && seed[i] != '\t' {
+				return seed[i]
+			}
+		}
+		return 0
+	}
+	for i := 0; i < n; {
+		c := seed[i]
+		switch {
+		case c == '"' || c == '\'':
+			j := i + 1
+			for j < n && seed[j] != c && seed[j] != '\n' {
+				if seed[j] == '\\' && c == '"' {
+					j++
+				}
+				j++
+			}
+			if j < n && seed[j] == c {
+				if nx := nextSig(j + 1); nx != ':' && nx != '=' {
+					out = append(out, [2]int{i, j + 1})
+				}
+				i = j + 1
+				prevSig = c
+				continue
+			}
+			prevSig = c
+			i++
+		case c == '{' || c == '[':
+			stack = append(stack, i)
+			prevSig = c
+			i++
+		case c == '}' || c == ']':
+			if len(stack) > 0 {
+				o := stack[len(stack)-1]
+				stack = stack[:len(stack)-1]
+				if (seed[o] == '{') == (c == '}') {
+					out = append(out, [2]int{o, i + 1})
+				}
+			}
+			prevSig = c
+			i++
+		case isBare(c):
+			j := i
+			for j < n && isBare(seed[j]) {
+				j++
+			}
+			if (prevSig == ':' || prevSig == ',' || prevSig == '[' || prevSig == '=') && nextSig(j) != ':' && nextSig(j) != '=' {
+				out = append(out, [2]int{i, j})
+			}
+			prevSig = seed[j-1]
+			i = j
+		case c == ' ' || c == '\t' || c == '\r':
+			i++
+		case c == '\n':
+			if prevSig != ':' && prevSig != ',' && prevSig != '[' && prevSig != '=' {
+				prevSig = '\n'
+			}
+			i++
+		default:
+			prevSig = c
+			i++
+		}
+	}
+	return out
 }
 
 // regenerate returns mutant number seq of seed.
